@@ -8,5 +8,12 @@ PROP = {
     "rule": HIST_RULE + " Emphasis C01: announce/scrape/store-op mix; every scrape, response count, delete result and membership dump is compared.",
     "tags": HIST_TAGS, "reasons": HIST_REASONS, "assumptions": HIST_ASSUMPTIONS,
     "trivial_tags": [], "min_tags": 4,
-    "explanation": "placeholder",
+    "explanation": "Coq theorems: for EVERY history of store operations and every shard count the memory store's observations (scrape counts, the membership AnnouncePeers selects from) equal those of the specification - one swarm map keyed by infohash x family whose clauses (seeder listed, leecher listed, completed moves, stopped removes, expiry removes, counts reported, other swarms untouched, no empty swarm) are proved as separate theorems; the Redis store's sequential model refines the same specification (Proofs/RedisP.v). The models are tied to storage/memory, storage/redis, middleware/hooks.go on every run by executing generated histories through middleware.Logic and the stores (memory 1/2/7/1024 shards; Redis on miniredis with 1-3 instances) and evaluating the same histories in the model AND in the specification inside Coq, including full membership dumps.",
+}
+
+CLAIM = {
+    "text": "Coq theorems: for EVERY history of store operations and every shard count the memory store's observations (scrape counts, the membership AnnouncePeers selects from) equal those of the specification - one swarm map keyed by infohash x family whose clauses (seeder listed, leecher listed, completed moves, stopped removes, expiry removes, counts reported, other swarms untouched, no empty swarm) are proved as separate theorems; the Redis store's sequential model refines the same specification (Proofs/RedisP.v). The models are tied to storage/memory, storage/redis, middleware/hooks.go on every run by executing generated histories through middleware.Logic and the stores (memory 1/2/7/1024 shards; Redis on miniredis with 1-3 instances) and evaluating the same histories in the model AND in the specification inside Coq, including full membership dumps.",
+    "design_ref": "DESIGN.md section 8, C01",
+    "note": "Trusted: Coq kernel+vm_compute, Glue/GH.v, Go driver, overlay shims (VerifDump/VerifShards/VerifGC), miniredis standing in for Redis. Several tracker instances sharing one Redis: the model has no per-instance state, which is checked by the multi-instance histories, not proved. Concurrency is C04's subject.",
+    "technique": "Coq refinement/invariant proofs over executable Gallina store models + differential history correspondence (vm_compute)",
 }
